@@ -330,9 +330,13 @@ class PolygonFilter(object):
     @staticmethod
     def remove(unique_id):
         """Remove a polygon filter from `PolygonFilter.instances`"""
-        for p in PolygonFilter.instances:
+        for ii, p in enumerate(PolygonFilter.instances):
             if p.unique_id == unique_id:
-                PolygonFilter.instances.remove(p)
+                # Remove by position: `list.remove` compares with `==`,
+                # which matches any filter with the same geometry and
+                # fails for filters with a different number of points.
+                PolygonFilter.instances.pop(ii)
+                break
 
     def save(self, polyfile, ret_fobj=False):
         """Save all data to a text file (appends data if file exists).
